@@ -130,6 +130,7 @@ fn main() {
         "asmscen" => suites::assembler::run_scen(&ctx),
         "sigc01" => suites::signal::run_c01(&ctx),
         "signear" => suites::signal::run_near(&ctx),
+        "sigmask" => suites::signal::run_mask(&ctx),
         "expand" => {
             // stdin: requests whose hashes disagreed; output: the individual requests they stand for
             use std::io::BufRead;
